@@ -29,6 +29,23 @@ def parse_obs(impl):
         return None
 
 
+def wrap_loop_lines(tier, rng):
+    """transfers of more than 65536 one-byte blocks with one fault on the datagrams numbered 65535, 0, 1 (DATA and the ACKs that name them)"""
+    L = []
+    for w in ([1, 4] if tier == "quick" else [1, 2, 3, 4, 7, 8, 64]):
+        flen = 65536 + 2 * w + 3
+        f = "gen:%d:%d" % (flen, w)
+        # without earlier faults DATA k has ordinal k-1; the ACK that names block k (k a multiple of w) has ordinal k/w - 1
+        ack_of = lambda k: (k + w - 1) // w - 1
+        for k in (65535, 65536, 65537):
+            L.append(loop_line(1, w, 5000, 1, f, dd=[k - 1]))
+            L.append(loop_line(1, w, 5000, 1, f, da=[ack_of(k)]))
+            if tier == "thorough":
+                L.append(loop_line(1, w, 5000, 1, f, ud=[k - 1]))
+                L.append(loop_line(1, w, 5000, 1, f, ua=[ack_of(k)]))
+    return list(dict.fromkeys(L))
+
+
 class LoopProp(Prop):
     assumptions = A_LOOP
     parallel = 8
@@ -98,7 +115,7 @@ class C04(LoopProp):
     module = "Tftp.Props.C04"
     rule = ("closed-loop transfers between the real sender and the real receiver: every single fault (drop or duplicate, DATA or ACK) at every datagram position for windowsize 1..4 and "
             "file lengths up to 2w+2 blocks around block/window boundaries; all pairs of faults for short transfers; seeded random schedules with up to 5 losses and 3 duplications, "
-            "w up to 13; lock-step schedules with 1..5 losses clustered on one block / spread / around the final block (the domain of c04_lockstep_loss_tolerance); the same schedules through the Lean closed-loop simulator (outcome, datagram counts and number of quiescent time-outs compared); "
+            "w up to 13; transfers of more than 65536 blocks with one fault on the datagrams numbered 65535/0/1; lock-step schedules with 1..5 losses clustered on one block / spread / around the final block (the domain of c04_lockstep_loss_tolerance); the same schedules through the Lean closed-loop simulator (outcome, datagram counts and number of quiescent time-outs compared); "
             "non-trivial = distinct schedule with at least one fault")
 
     def generate(self, tier, rng):
@@ -171,6 +188,7 @@ class C04(LoopProp):
             ud = rng.sample(range(nb + 8), rng.randint(0, 3))
             ua = rng.sample(range(nb + 8), rng.randint(0, 3))
             lines.append(loop_line(bb, 1, 5000, 1, "gen:%d:%d" % (flen, rng.randint(0, 255)), dd, ud, da, ua))
+        lines += wrap_loop_lines(tier, rng)
         # the same datagram lost six times in a row: beyond the budget, must end (no livelock)
         lines.append(loop_line(8, 1, 5000, 1, "gen:20:1", dd=[1, 2, 3, 4, 5, 6]))
         return list(dict.fromkeys(lines))
